@@ -16,7 +16,8 @@ CFG = dict(
          "unchanged, interleaved with no-save topics and SENDALLs, then the save points are awaited; the oracle demands the latest value of EVERY "
          "persistent topic in the file whatever path the code took. "
          "K: real saveState in a child process killed at every step boundary the source contains (and inside the write of the temporary file: "
-         "0, 1/4, 1/2, 3/4 of its bytes), after 0..2 complete saves, from directories with empty/old main file, with/without backup, with/without "
+         "0, 1/4, 1/2, 3/4 of its bytes), or (12% of the K cases, fault injection without a kill) with a write of the temporary file that FAILS after the "
+         "file was created/truncated (a status value the YAML encoder refuses, as a full disk or I/O error would), after 0..2 complete saves, from directories with empty/old main file, with/without backup, with/without "
          "stale complete or partial temporary file; the directory is then read by the real start-up (cmd/dastard built with -tags verif: "
          "makeFileExist + setupViper). R: typed source configurations (SimPulse, Triangle, Lancero, Abaco, Roach), record lengths (ordinary pairs, the boundary "
          "Nsamples = Npresamp+1 with Npresamp 1/2/3/500/random, large values, and illegal saved pairs for which the start-up's defaulting rule "
@@ -24,7 +25,7 @@ CFG = dict(
          "settings and base path saved by the real saveState (optionally over a file of an earlier run) and restored by the real start-up "
          "(setupViper, RunRPCServer, PrepareRun), compared field by field. Non-trivial = a SENDALL reply with several topics after repeated "
          "updates, a read-back of a self-made save, a save window with a change plus a return-to-saved-value of another topic, a kill strictly inside the save, a kill inside the write, or a typed round trip; distinct by input line.",
-    nontrivial=["replay-multi-repeat", "saved", "window-revert", "window-multi", "crash-mid", "inwrite", "R"],
+    nontrivial=["replay-multi-repeat", "saved", "window-revert", "window-multi", "crash-mid", "inwrite", "write-fails", "R"],
     jobs=seeds(1, 3),
     trusted_base=["POSIX semantics of rename(2) (atomic replace), link(2), unlink(2) and of a write that a kill can cut at any byte, as transcribed in "
                   "Model/C16.lean (three-file model; durability after power loss / fsync is not modelled: the property is about a process kill)",
@@ -83,6 +84,8 @@ THEOREMS = [
     ("DastardV.Props.C16", "DastardV.C16.C16_crash_safe"),
     ("DastardV.Props.C16", "DastardV.C16.C16_crash_safe_history"),
     ("DastardV.Props.C16", "DastardV.C16.C16_crash_unsafe_before_fix"),
+    ("DastardV.Props.C16", "DastardV.C16.C16_failed_write_keeps_old"),
+    ("DastardV.Props.C16", "DastardV.C16.C16_failed_write_safe"),
     ("DastardV.Props.C16", "DastardV.C16.C16_save_complete"),
     ("DastardV.Props.C16", "DastardV.C16.C16_save_keeps_backup"),
 ]
